@@ -630,6 +630,28 @@ func (c *CipherObj) Invoke(ex *Exec, fr *frame, method string, args []Value) Val
 	switch method {
 	case "BlockSize":
 		return ex.tt.BV(64, 16)
+	case "Encrypt", "Decrypt":
+		// one raw block = single-block CBC under an all-zero IV (same function family as cbcTerm)
+		dst := args[0].(Slice)
+		src := ex.sliceTerms(args[1])
+		if len(src) < 16 {
+			panic(&progPanic{kind: "explicit", msg: "crypto/aes: input not full block", fn: "crypto/aes.Encrypt",
+				val: Iface{t: types.Typ[types.String], v: "crypto/aes: input not full block"}})
+		}
+		if len(dst.data) < 16 {
+			panic(&progPanic{kind: "explicit", msg: "crypto/aes: output not full block", fn: "crypto/aes.Encrypt",
+				val: Iface{t: types.Typ[types.String], v: "crypto/aes: output not full block"}})
+		}
+		zero := make([]*Term, 16)
+		for i := range zero {
+			zero[i] = ex.tt.BV(8, 0)
+		}
+		out := ex.cbcTerm(method == "Encrypt", c.key, zero, src[:16])
+		for i, t := range out {
+			ex.noteWrite(&dst.data[i])
+			dst.data[i] = t
+		}
+		return nil
 	}
 	ex.unsupported("cipher.Block method " + method)
 	return nil
@@ -729,6 +751,27 @@ func init() {
 		"crypto/subtle.ConstantTimeCompare": func(ex *Exec, fr *frame, args []Value) Value {
 			c := ex.bytesEqual(ex.sliceTerms(args[0]), ex.sliceTerms(args[1]))
 			return ex.tt.Ite(c, ex.tt.BV(64, 1), ex.tt.BV(64, 0))
+		},
+		"crypto/subtle.XORBytes": func(ex *Exec, fr *frame, args []Value) Value {
+			dst := args[0].(Slice)
+			x, y := ex.sliceTerms(args[1]), ex.sliceTerms(args[2])
+			n := len(x)
+			if len(y) < n {
+				n = len(y)
+			}
+			if n == 0 {
+				return ex.tt.BV(64, 0)
+			}
+			if len(dst.data) < n {
+				panic(&progPanic{kind: "explicit", msg: "subtle.XORBytes: dst too short", fn: "crypto/subtle.XORBytes",
+					val: Iface{t: types.Typ[types.String], v: "subtle.XORBytes: dst too short"}})
+			}
+			for i := 0; i < n; i++ {
+				t := ex.tt.Bin(OXor, x[i], y[i])
+				ex.noteWrite(&dst.data[i])
+				dst.data[i] = t
+			}
+			return ex.tt.BV(64, uint64(n))
 		},
 		"crypto/sha1.New": func(ex *Exec, fr *frame, args []Value) Value {
 			return Iface{t: ex.eng.namedType("crypto/sha1", "digest", true), v: &HashObj{alg: "sha1"}}
